@@ -869,9 +869,14 @@ func cmdGolden() {
 			}
 			rv := reflect.ValueOf(m).Elem()
 			seenOmit := 0
-			for i := 0; i < rv.NumField(); i++ {
-				f := rv.Field(i)
-				omit := strings.Contains(rv.Type().Field(i).Tag.Get("wamp"), "omitempty")
+			for j := 0; j < rv.NumField(); j++ {
+				f := rv.Field(j)
+				// the value depends on the field's NAME, so that two fields changing places is seen
+				i := 0
+				for _, ch := range rv.Type().Field(j).Name {
+					i = (i*31 + int(ch)) % 900
+				}
+				omit := strings.Contains(rv.Type().Field(j).Tag.Get("wamp"), "omitempty")
 				if omit {
 					seenOmit++
 					if variant == 1 || (variant == 2 && seenOmit == 1) {
